@@ -5,6 +5,7 @@
    observable value changed in the implementation must be among those the model allows to change.
    Every proof is `exact <lemma>` or an instance of the central frame lemma. *)
 From TenpyV Require Import Base.Prelude Model.Store Proofs.StoreP Proofs.StoreP2 Model.StoreMps Proofs.StoreMpsP.
+From TenpyV Require Import Model.StoreShare Proofs.StoreShareP.
 Open Scope nat_scope.
 
 (* the central statement: whatever operation runs, a live tensor that is not in the (small, explicit)
@@ -295,6 +296,35 @@ Example T03_example_mps_history : mps_run_ok ex_sc (fst ex_hm) (snd ex_hm)
    PMeas [MsGet 0 form_A false; MsOp (OAdd 5 5 (fun x y => x ++ y))]; POp (OCopy false 2); POp (OProject 1 dbl (fun t => t) [dleg])].
 Proof. exact ex_mps_history. Qed.
 
+(* ---- no hidden aliasing (Model/StoreShare.v).  The frame theorems above speak about the moment of the call; a result that
+   secretly shares a buffer with a live tensor would corrupt it at the next buffer-writing in-place method.  In the model
+   the result of EVERY function that is not in-place, except copy(deep=False) (returns_fresh: new, copy(deep=True), a*s /
+   conj / transpose / split_legs / ... = OUnary, scale_axis, a+b, tensordot), shares no buffer with any tensor that existed
+   before the call, in either direction, for all heaps and all operand choices.  harness/c03.py compares the block memory of
+   all live tensors of the implementation after every step (np.shares_memory) with the model (check_shares): a pair that
+   owns common memory in the code must share a buffer in the model. *)
+Theorem T03_fresh_result_unshared : forall h o x, wf h -> returns_fresh o = true -> x < length (objs h) ->
+  shares_buffer (fst (exec h o)) x (snd (exec h o)) = false /\
+  shares_buffer (fst (exec h o)) (snd (exec h o)) x = false.
+Proof. exact fresh_result_unshared. Qed.
+
+(* ... and after a rebinding in-place method (OMapRebind: python iscale_prefactor / iadd_prefactor_other, iscale_axis;
+   OProject: iproject) the receiver shares no buffer with any other live tensor, not even with its shallow copies *)
+Theorem T03_rebind_unshares : forall h o r x, wf h -> rebinds_fresh o = true -> inplace_receiver o = Some r ->
+  x < length (objs h) -> x <> r ->
+  shares_buffer (fst (exec h o)) x r = false /\ shares_buffer (fst (exec h o)) r x = false.
+Proof. exact rebind_unshares. Qed.
+
+(* the hypotheses are satisfiable and the conclusion is not trivial: a shallow copy does share, the result of a function
+   applied to one of the two shares with neither *)
+Example T03_example_shares :
+  let h0 := mkHeap [] [] [dleg] [] in
+  let h1 := fst (exec h0 (ONew 2 [0])) in
+  let h2 := fst (exec h1 (OCopy false 0)) in
+  let h3 := fst (exec h2 (OUnary 0 (fun v => v))) in
+  wf h2 /\ shares_buffer h2 0 1 = true /\ shares_buffer h3 0 2 = false /\ shares_buffer h3 1 2 = false.
+Proof. exact example_shares. Qed.
+
 Print Assumptions T03_frame_all_ops.
 Print Assumptions T03_frame_tensordot.
 Print Assumptions T03_frame_add.
@@ -318,3 +348,5 @@ Print Assumptions T03_mps_init_copies.
 Print Assumptions T03_mps_set_B.
 Print Assumptions T03_mps_sep_preserved.
 Print Assumptions T03_mps_history.
+Print Assumptions T03_fresh_result_unshared.
+Print Assumptions T03_rebind_unshares.
